@@ -268,7 +268,7 @@ def cigar_for(draw, max_ref=30, simple=False):
 @st.composite
 def dataset_spec(draw, max_loci=3, max_snvs=5, max_samples=3, max_reads=25, paired=True, flags=True, multi_rg=True,
                  mapq_values=(0, 19, 20, 21, 60, 255), extra_bases=True, min_loci=1, n_contigs=None, simple_cigar=False,
-                 min_reads=3, locus_len=(12, 30), unique_qnames_across_samples=True, sub_rate=0):
+                 min_reads=3, locus_len=(12, 30), unique_qnames_across_samples=True, sub_rate=0, min_samples=1):
     nc = n_contigs or draw(st.integers(1, 2))
     n_loci = draw(st.integers(min_loci, max_loci))
     contigs = []
@@ -300,7 +300,7 @@ def dataset_spec(draw, max_loci=3, max_snvs=5, max_samples=3, max_reads=25, pair
                 alts = list(draw(st.permutations(others)))[:n_alt]
                 snvs.append({"contig": name, "pos": p, "alleles": [seq[p]] + alts})
     # samples and bam files
-    n_samples = draw(st.integers(1, max_samples))
+    n_samples = draw(st.integers(min_samples, max_samples))
     samples = ["S%d" % i for i in range(n_samples)]
     bams = []
     rg_count = 0
